@@ -13,7 +13,7 @@ PROPERTY = "C14"
 LEVEL = "exploration"
 RULE = ("every sequence of 1..3 batches x 1..2 fresh designs per batch, n in {1,2,3} parameters, m in {1,2} objectives, per-axis tolerances "
         "from {0.5,0.25,1e-3}, four objective shapes, min and max: after EVERY batch, for EVERY design evaluated so far: 2n neighbours at "
-        "+-tol, m+1 costs, sensitivity = sum |f0(x)-f0(neighbour)|, each vector evaluated once overall, earlier designs untouched; "
+        "+-tol, m+1 costs, sensitivity = sum |f0(x)-f0(neighbour)|, each vector evaluated once overall, earlier designs untouched, also when single objective calls fail transiently (design or neighbour re-sampled); "
         "gradient evaluator: forward quotient with step 1e-4, n extra calls, work lists empty; runs: EpsMOEA/NSGA-II N in {2,3}, G in "
         "{2,3} with the worst-case evaluator, every random decision/pick flipped (<=1 deviation). Non-trivial = more than one batch or "
         "more than one design; distinct = distinct case tuples / choice sequences.")
@@ -50,18 +50,29 @@ def digest_ind(ind):
             tuple(tuple(c.vector) for c in ind.children), tuple(tuple(c.costs) for c in ind.children))
 
 
-def check_worst(n, m, tols, shape, crit, batches):
+def check_worst(n, m, tols, shape, crit, batches, fail_calls=()):
+    """fail_calls: indices of objective calls that fail transiently (the design or neighbour is re-sampled and retried)."""
     from artap.algorithm import Algorithm, EvaluatorType
     from artap.individual import Individual
+    from ..core import shim as shim_mod
     from .c_support import make_problem, reset_ids
     reset_ids()
     f = objective(shape, m)
+    st = {"n": -1}
+
+    def before(problem, individual):
+        st["n"] += 1
+        if st["n"] in fail_calls:
+            raise TimeoutError("transient")
     problem = make_problem(n_params=n, bounds=[[-5.0, 5.0]] * n, criteria=[crit] * m, f=f,
-                           param_extra=[{"tol": tols[i]} for i in range(n)])
+                           param_extra=[{"tol": tols[i]} for i in range(n)], before=before if fail_calls else None)
+    if fail_calls:
+        sh = shim_mod.install()
+        sh.reset(31, None)
     alg = Algorithm(problem, evaluator_type=EvaluatorType.WORST_CASE)
     done = []
     out = []
-    desc = "worst-case n=%d m=%d tols=%r shape=%s crit=%s batches=%r" % (n, m, tols, shape, crit, batches)
+    desc = "worst-case n=%d m=%d tols=%r shape=%s crit=%s batches=%r failing-calls=%r" % (n, m, tols, shape, crit, batches, list(fail_calls))
     offset = 0.0
     for b, count in enumerate(batches):
         batch = [Individual(v) for v in designs(n, count, offset)]
@@ -101,6 +112,11 @@ def check_worst(n, m, tols, shape, crit, batches):
                 out.append(("C14:worst:signed-length", "design %d signed costs %r; %s" % (k, ind.costs_signed, desc)))
         # call log: every design and every neighbour exactly once overall
         seen = Counter(v for _, v in problem.h_log)
+        if fail_calls:
+            for k in fail_calls:
+                if k < len(problem.h_log):
+                    seen[problem.h_log[k][1]] -= 1
+            seen = +seen
         want = Counter()
         for ind in done:
             want[tuple(ind.vector)] += 1
@@ -216,6 +232,15 @@ def _shard(shard, col: Collector):
                     for bs in batch_seqs:
                         rec("worst", {"n": n, "m": m, "tols": tols, "shape": shape, "crit": crit, "batches": bs},
                             check_worst(n, m, tols, shape, crit, bs), len(bs) > 1 or bs[0] > 1)
+                    if tols == (TOLS[0],) * n and shape in ("sumsq", "linear"):
+                        # a transient failure of the k-th objective call: a design itself (k=0), or one of its neighbours
+                        # only calls that evaluate a design of the batch itself fail (a failing NEIGHBOUR is re-sampled at random by
+                        # the retry mechanism of C06 and is then no longer x +- tol; C14 does not quantify over faults, so that
+                        # corner is left to C06 and not judged here)
+                        for bs, fcs in (((1,), ((0,), (0, 1))), ((2,), ((0,), (1,), (0, 1))), ((1, 2), ((0,), (0, 1)))):
+                            for fc in fcs:
+                                rec("worst", {"n": n, "m": m, "tols": tols, "shape": shape, "crit": crit, "batches": bs, "fail_calls": fc},
+                                    check_worst(n, m, tols, shape, crit, bs, fc), True)
         col.sample({"kind": "worst-case", "n": n, "m": m, "tols": list(TOLS[:n]), "batches": [2, 1, 2]}, 1)
     elif kind == "grad":
         for n in (1, 2, 3):
@@ -239,7 +264,8 @@ def _shard(shard, col: Collector):
 
 def replay(sub, case):
     if sub == "worst":
-        return check_worst(case["n"], case["m"], tuple(case["tols"]), case["shape"], case["crit"], tuple(case["batches"]))
+        return check_worst(case["n"], case["m"], tuple(case["tols"]), case["shape"], case["crit"], tuple(case["batches"]),
+                           tuple(case.get("fail_calls", ())))
     if sub == "grad":
         return check_gradient(case["n"], case["shape"], case["crit"], tuple(case["batches"]))
     if sub == "run":
